@@ -52,7 +52,7 @@ BUILT = {
     'C06': ('Hypothesis random search over (model, L, parameters incl. zeros and sign changes); differential oracle = textbook Hamiltonian built from occupation-number states / spin matrices',
             'Exploration: every built-in lattice model and the linear fermionic operators for L = 1 .. dense reach with independently drawn parameters (zeros, +-1, +-0.5, generic) are compared '
             'with an independently constructed dense reference; Hermiticity, block sparsity of every tensor, the charge selection rule of the dense matrix and the resolving power of the physical charges are judged.',
-            'dense reach d^L <= 1024 (4096 thorough); identically-zero operators excluded', '4 (C06)'),
+            'dense reach d^L <= 1024 (2048 thorough); identically-zero operators excluded', '4 (C06)'),
     'C07': ('enumeration of every orbital count in reach for both build paths + Hypothesis over coefficient structures and gauge rotations; Fock-space reference oracle (sparse)',
             'Exploration: spinless L = 1..7 (9 thorough) optimized and 4.. explicit, spin-orbital L = 1..4 (5) optimized and 2..5 (6) explicit, with complex / real / masked / symmetric / zero-padded / '
             'integer / one-body / two-body coefficient tensors, are compared in sparse form with a reference built from occupation-number states; the orbital gauge matrices are judged by the documented recipe '
